@@ -90,6 +90,19 @@ def body(case):
                           expected=dict(length=len(text), text=text + extra))
         if list(res[1]) != [want] and not (kind not in ("Tupl", "Seq", "Grid", "Rooms", "ValuedRooms")):
             raise Failure("low-level-value-differs|" + kind, observed=GC.from_py(res[1]))
+    sec = case.get("second")
+    if sec:
+        v2 = GC.to_py(sec["value"])
+        try:
+            t2 = ps.serialize_problem(term, v2, height=sec["height"], width=sec["width"])
+            b2 = ps.deserialize_problem(term, t2, height=sec["height"], width=sec["width"])
+        except Exception as e:
+            raise Failure("reused-combinator-raises|%s|%s" % (kind, repo_frame_sig(e)),
+                          observed="%s: %s" % (type(e).__name__, str(e)[:120]),
+                          expected="same combinator object, board %dx%d after %dx%d" % (sec["height"], sec["width"], H, W))
+        if b2 != expected(case["term"], v2):
+            raise Failure("round-trip-differs-on-reused-combinator|" + kind, observed=GC.from_py(b2),
+                          expected=GC.from_py(expected(case["term"], v2)))
     return text
 
 
@@ -177,6 +190,7 @@ def run(ctx):
               round(cl["flag:unsorted-rooms"] / max(1, cl["flag:rooms"]), 3), 0.30)
     ctx.floor("valued rooms cases", cl["flag:valued-rooms"], 50)
     ctx.floor("depth >= 2 (share)", round(cl["depth>=2"] / tot, 3), 0.2)
+    ctx.floor("combinator object reused for another board size", cl["flag:combinator-reused-for-another-size"], 200)
 
 
 def replay(ctx, rep):
